@@ -570,7 +570,7 @@ def checks(tier):
             "forms",
             _run,
             strategy=_cases(ml),
-            examples={"quick": 10000, "thorough": 16 * 75000},
+            examples={"quick": 10000, "thorough": 16 * 50000},
             shards={"quick": 8, "thorough": 16},
         ),
     ]
